@@ -37,6 +37,12 @@ func loadCache() {
 	json.Unmarshal(b, &proofCache)
 }
 
+// obligKey identifies everything the solvers are given for an obligation: the full query and the
+// weakened variant raced beside it (an answer may come from either).
+func obligKey(o *Oblig) string {
+	return scriptKey(o.Script + "\x00" + o.Alt)
+}
+
 func scriptKey(script string) string {
 	sum := sha256.Sum256([]byte(script))
 	return fmt.Sprintf("%x", sum[:16])
@@ -48,7 +54,7 @@ func cacheLookup(o *Oblig) (SolveResult, bool) {
 	}
 	cacheMu.Lock()
 	defer cacheMu.Unlock()
-	e, ok := proofCache[scriptKey(o.Script)]
+	e, ok := proofCache[obligKey(o)]
 	if !ok || e.Status != o.Expect {
 		if os.Getenv("GOVC_DEBUG_CACHE") != "" {
 			fmt.Fprintf(os.Stderr, "cache miss: %s %s\n", o.Name, scriptKey(o.Script)[:16])
@@ -65,7 +71,7 @@ func cacheStore(o *Oblig, r SolveResult) {
 	}
 	cacheMu.Lock()
 	defer cacheMu.Unlock()
-	cacheNew[scriptKey(o.Script)] = cacheEntry{Status: r.Status, Solver: r.Solver, Seconds: round3(r.Seconds)}
+	cacheNew[obligKey(o)] = cacheEntry{Status: r.Status, Solver: r.Solver, Seconds: round3(r.Seconds)}
 }
 
 func saveCache() {
